@@ -1925,74 +1925,62 @@ func c09R4GcIndex(c *Ctx, R4 string, h *c09Helpers) {
 	}
 	pass1 := 0
 	gcIndexFn := f
-	origNewRes, origNewGraph := newRes, newGraph
-	for _, f := range c09ReachableInPkg(gcIndexFn, 2) {
-		// the rebuilt resolver / graph as seen in f: the values themselves, or the parameters they are passed in
-		newRes, newGraph := origNewRes, origNewGraph
-		if f != gcIndexFn {
-			newRes, newGraph = nil, nil
-			for _, prm := range f.Params {
-				os, ok := c09Origins(c.P, prm, 2, gcIndexFn)
-				if !ok || len(os) == 0 {
-					continue
-				}
-				allRes, allGraph := true, true
-				for _, o := range os {
-					allRes = allRes && c09SameKey(o, origNewRes)
-					allGraph = allGraph && c09SameKey(o, origNewGraph)
-				}
-				if allRes {
-					newRes = prm
-				}
-				if allGraph {
-					newGraph = prm
-				}
-			}
-			if newRes == nil || newGraph == nil {
-				continue
+	// is v (in whatever function below gcIndex) the rebuilt resolver / graph?
+	isNew := func(v, orig ssa.Value) bool {
+		if v == nil {
+			return false
+		}
+		if c09SameKey(v, orig) || c09SameKey(c09Resolved(v), c09Resolved(orig)) {
+			return true
+		}
+		os, ok := c09Origins(c.P, v, 2, gcIndexFn)
+		if !ok || len(os) == 0 {
+			return false
+		}
+		for _, o := range os {
+			if !(c09SameKey(o, orig) || c09SameKey(c09Resolved(o), c09Resolved(orig))) {
+				return false
 			}
 		}
-		for _, l := range Loops(f) {
-			_, next, _, _, ok := l.RangeMap()
-			if !ok {
-				continue
+		return true
+	}
+	// the snapshot of the old tag map that the passes range over
+	maps := map[ssa.Value]bool{}
+	for _, g := range c09ReachableInPkg(gcIndexFn, 2) {
+		res := c08StoreFieldLoads(g, store, "tagResolver")
+		for _, mc := range CallsTo(g, c09nMap) {
+			if res[mc.Common().Args[0]] {
+				for a := range Aliases(mc.Value()) {
+					maps[a] = true
+				}
 			}
-			var k, v ssa.Value
-			for _, r := range *next.Referrers() {
-				if e, ok := r.(*ssa.Extract); ok {
-					if e.Index == 1 {
-						k = e
-					} else if e.Index == 2 {
-						v = e
+		}
+	}
+	for round := 0; round < 2; round++ {
+		for _, g := range c09ReachableInPkg(gcIndexFn, 2) {
+			for _, prm := range g.Params {
+				if os, ok := c09Origins(c.P, prm, 1, nil); ok && len(os) > 0 && !(len(os) == 1 && os[0] == ssa.Value(prm)) {
+					all := true
+					for _, o := range os {
+						all = all && (maps[o] || maps[c09Resolved(o)])
+					}
+					if all {
+						maps[prm] = true
 					}
 				}
 			}
-			if k == nil || v == nil {
-				continue
+		}
+	}
+	for _, f := range c09ReachableInPkg(gcIndexFn, 2) {
+		if c09IsYieldBody(f) {
+			continue // reached through the loop statement of its parent
+		}
+		for _, p := range c08Passes(f, maps) {
+			p := p
+			k, obj, body := p.k, p.obj, p.fn
+			inObj := func(v ssa.Value) bool {
+				return v != nil && (obj.vals[v] || obj.vals[strip(v)] || obj.vals[c09CellOrValue(v)])
 			}
-			obj := c09DescObjOf(v)
-			// the ref != digest edge
-			var neq []Edge
-			for _, i := range Ifs(f) {
-				if !l.Blocks[i.Block()] {
-					continue
-				}
-				cond, t, fe := ifEdges(i)
-				bo, ok := cond.(*ssa.BinOp)
-				if !ok || (bo.Op != token.EQL && bo.Op != token.NEQ) {
-					continue
-				}
-				isDg := func(x ssa.Value) bool { return c09DigestString(obj, x) || c09DigestString(obj, strip(x)) }
-				if (c09SameKey(bo.X, k) && isDg(bo.Y)) || (c09SameKey(bo.Y, k) && isDg(bo.X)) {
-					if bo.Op == token.NEQ {
-						neq = append(neq, t)
-					} else {
-						neq = append(neq, fe)
-					}
-				}
-			}
-			// the effects of this pass, performed directly or by an extracted helper
-			inObj := func(v ssa.Value) bool { return v != nil && (obj.vals[v] || obj.vals[strip(v)]) }
 			digestStringOfObj := func(x ssa.Value, bind c09Bind) bool {
 				call, ok := strip(x).(*ssa.Call)
 				var dg ssa.Value
@@ -2005,45 +1993,49 @@ func c09R4GcIndex(c *Ctx, R4 string, h *c09Helpers) {
 				}
 				return dg != nil && inObj(bind(c09FieldBase(dg, "Digest")))
 			}
-			inLoop := func(ins []ssa.Instruction) []ssa.Instruction {
+			inBody := func(ins []ssa.Instruction) []ssa.Instruction {
 				var out []ssa.Instruction
 				for _, in := range ins {
-					if l.Contains(in) {
+					if p.it.InBody(in) {
 						out = append(out, in)
 					}
 				}
 				return out
 			}
-			tagRef := inLoop(c09EffectSites(f, c09Identity, func(call ssa.CallInstruction, bind c09Bind) bool {
+			tagRef := inBody(c09EffectSites(body, c09Identity, func(call ssa.CallInstruction, bind c09Bind) bool {
 				a := call.Common().Args
-				return CalleeName(call) == c09nTag && len(a) == 4 && bind(a[0]) != nil && c09SameKey(bind(a[0]), newRes) && bind(a[3]) != nil && c09SameKey(bind(a[3]), k) && inObj(bind(a[2]))
+				return CalleeName(call) == c09nTag && len(a) == 4 && k != nil && isNew(bind(a[0]), newRes) && bind(a[3]) != nil && c09SameKey(bind(a[3]), k) && inObj(bind(c09CellOrValue(a[2])))
 			}, 2))
-			tagDg := inLoop(c09EffectSites(f, c09Identity, func(call ssa.CallInstruction, bind c09Bind) bool {
+			tagDg := inBody(c09EffectSites(body, c09Identity, func(call ssa.CallInstruction, bind c09Bind) bool {
 				a := call.Common().Args
-				return CalleeName(call) == c09nTag && len(a) == 4 && bind(a[0]) != nil && c09SameKey(bind(a[0]), newRes) && digestStringOfObj(a[3], bind)
+				return CalleeName(call) == c09nTag && len(a) == 4 && isNew(bind(a[0]), newRes) && digestStringOfObj(a[3], bind)
 			}, 2))
-			idx := inLoop(c09EffectSites(f, c09Identity, func(call ssa.CallInstruction, bind c09Bind) bool {
+			idx := inBody(c09EffectSites(body, c09Identity, func(call ssa.CallInstruction, bind c09Bind) bool {
 				a := call.Common().Args
-				return CalleeName(call) == c09nIndexAll && len(a) == 4 && bind(a[0]) != nil && c09SameKey(bind(a[0]), newGraph)
+				return CalleeName(call) == c09nIndexAll && len(a) == 4 && isNew(bind(a[0]), newGraph)
 			}, 2))
+			lpos := p.it.Stmt.Pos()
+			if p.l != nil {
+				lpos = blockPos(p.l.Header)
+			}
 			if len(tagRef) > 0 {
 				pass1++
-				if len(neq) == 0 {
-					c.Undecided(R4, fn+"|pass1-keeps-tagged-entries", blockPos(l.Header), "the ref != digest test of the first pass is not recognised")
+				starts := p.starts(-1)
+				if len(starts) == 0 {
+					c.Undecided(R4, fn+"|pass1-keeps-tagged-entries", lpos, "the ref != digest test of the first pass is not recognised")
 					continue
 				}
-				header := l.Header.Instrs[0]
 				for _, req := range []struct {
 					what string
 					ins  []ssa.Instruction
 				}{{"tag-by-ref", tagRef}, {"tag-by-digest", tagDg}, {"index-all", idx}} {
 					ok := len(req.ins) > 0
-					for _, e := range neq {
-						if reach(e.To, 0, header, newCut().Instr(req.ins...)) {
+					for _, b := range starts {
+						if p.it.ContinuesWithout(b, 0, newCut().Instr(req.ins...)) {
 							ok = false
 						}
 					}
-					c.Check(R4, fn+"|pass1-keeps-tagged-entries:"+req.what, blockPos(l.Header), ok, ifelse(ok,
+					c.Check(R4, fn+"|pass1-keeps-tagged-entries:"+req.what, lpos, ok, ifelse(ok,
 						"every ref != digest entry that continues the loop went through "+req.what+" on the new resolver/graph",
 						"a tagged entry (ref != digest) can be skipped without "+req.what+": GC would drop a tag or treat tagged content as garbage"))
 				}
@@ -2051,21 +2043,17 @@ func c09R4GcIndex(c *Ctx, R4 string, h *c09Helpers) {
 			}
 			// pass 2: digest-only entries are kept only under graph.Exists(subject)
 			if len(tagDg) > 0 {
-				exT, _, _ := CallTests(f, c09nExists, func(x *ssa.Call) bool { return c09SameKey(x.Call.Args[0], newGraph) })
+				exT, _, _ := CallTests(body, c09nExists, func(x *ssa.Call) bool { return isNew(x.Call.Args[0], newGraph) })
 				// … or a helper that answers true only on newGraph.Exists(...) == true
-				te, _ := c09BoolCallEdges(f, func(call *ssa.Call, g *ssa.Function) (int, bool) {
-					if fnPkgPath(g) != fnPkgPath(f) {
+				te, _ := c09BoolCallEdges(body, func(call *ssa.Call, g *ssa.Function) (int, bool) {
+					if fnPkgPath(g) != fnPkgPath(body) {
 						return 0, false
 					}
-					for i, a := range call.Call.Args {
-						if i >= len(g.Params) || !c09SameKey(a, newGraph) {
-							continue
-						}
-						inner, _, _ := CallTests(g, c09nExists, func(x *ssa.Call) bool { pf, pi := c09ParamOf(x.Call.Args[0]); return pf == g && pi == i })
-						for idx := 0; idx < g.Signature.Results().Len(); idx++ {
-							if types.Identical(g.Signature.Results().At(idx).Type(), types.Typ[types.Bool]) && len(inner) > 0 && c09TrueImplies(g, idx, inner, nil) {
-								return idx, true
-							}
+					gb := c09HelperBind(call, g, c09Identity)
+					inner, _, _ := CallTests(g, c09nExists, func(x *ssa.Call) bool { return isNew(gb(x.Call.Args[0]), newGraph) })
+					for ri := 0; ri < g.Signature.Results().Len(); ri++ {
+						if types.Identical(g.Signature.Results().At(ri).Type(), types.Typ[types.Bool]) && len(inner) > 0 && c09TrueImplies(g, ri, inner, nil) {
+							return ri, true
 						}
 					}
 					return 0, false
@@ -2078,10 +2066,10 @@ func c09R4GcIndex(c *Ctx, R4 string, h *c09Helpers) {
 					}
 				}
 				if !ok && len(exT) > 0 {
-					c.Undecided(R4, fn+"|pass2-keeps-only-referrers-of-kept-nodes", blockPos(l.Header), "the second pass consults newGraph.Exists but the rule cannot show that an untagged entry is kept only when it answered true (condition shape not recognised)")
+					c.Undecided(R4, fn+"|pass2-keeps-only-referrers-of-kept-nodes", lpos, "the second pass consults newGraph.Exists but the rule cannot show that an untagged entry is kept only when it answered true (condition shape not recognised)")
 					continue
 				}
-				c.Check(R4, fn+"|pass2-keeps-only-referrers-of-kept-nodes", blockPos(l.Header), ok, ifelse(ok,
+				c.Check(R4, fn+"|pass2-keeps-only-referrers-of-kept-nodes", lpos, ok, ifelse(ok,
 					"an untagged entry is re-tagged/re-indexed only on the newGraph.Exists(subject) edge",
 					"an untagged entry is kept without its subject chain reaching the rebuilt graph: garbage survives GC"))
 			}
